@@ -4,7 +4,7 @@ from hypothesis import strategies as st
 from vlib import jasm_io, x86enc
 from vlib.elfw import disassemble_blob
 from vlib.objsrc import ALL_LAYOUTS, LAYOUT_ASSUMPTION, LAYOUT_RULE, layout_tag, listing_for, source_tag, sources
-from vlib.refnorm import GPR16, GPR32, GPR64, GPR8, classify_line, normal_form, split_operands
+from vlib.refnorm import instruction_text, GPR16, GPR32, GPR64, GPR8, classify_line, normal_form, split_operands
 from vlib.render import HEADER, inst_line
 from vlib.runner import Eval
 
@@ -103,9 +103,8 @@ def is_prefix(tok):
 
 def check_line(ev, addr, text, record, counts):
     """One instruction line: expected operands by the reference normaliser vs the stream record and parse_line."""
-    text = text.replace("data16 ", "")
-    toks = text.split("#")[0].split(" ")
-    toks = [t for t in toks if t != ""]
+    text = instruction_text(text).replace("data16 ", "")  # objdump -w -r puts the relocation record after a TAB: not part of the instruction
+    toks = text.split("#")[0].split()
     if not toks:
         return
     opstr = toks[1] if len(toks) > 1 else ""
